@@ -589,8 +589,11 @@ func ruleLoopIndex(c *Ctx) {
 				continue
 			}
 			phi := inductionVar(idx)
-			if phi == nil || !isByteSeq(x.Type()) {
+			if phi == nil {
 				continue
+			}
+			if !isByteSeq(x.Type()) && madeHere(x, 0) {
+				continue // a slice made in this function with the length it is filled to (`sublist[i] = sub; i++`)
 			}
 			n++
 			c.inst(1)
@@ -600,13 +603,36 @@ func ruleLoopIndex(c *Ctx) {
 			}
 			// some test involves the counter (or counter±k): in the loop condition or in the body
 			guarded := false
+			scope := map[*ssa.BasicBlock]bool{}
+			if h := innermostLoopHeader(phi.Block()); h != nil {
+				scope = loopBody(h) // the loop the counter counts in
+			} else if lb := loopBody(phi.Block()); len(lb) > 0 {
+				scope = lb
+			}
 			for _, d := range fn.Blocks {
+				if len(scope) > 0 && !scope[d] {
+					continue
+				}
 				if i := blockIf(d); i != nil && mentionsValue(i.Cond, phi, 0) {
 					guarded = true
 				}
 			}
 			if !guarded && rangeCounter(phi) {
 				guarded = true
+			}
+			if ph, ok := stripConv(x).(*ssa.Phi); ok && guarded {
+				grown := false // a list that starts empty and is appended to: its readers are bounded by its length
+				for _, e := range ph.Edges {
+					if !isNilConst(e) && madeHere(e, 0) {
+						grown = true
+					}
+				}
+				for _, e := range ph.Edges {
+					if isNilConst(e) && !grown {
+						c.viol(fnName(fn), "a sequence read at the position of a loop counter is set on every path that reaches the read", p.InstrPos(in), "on one path the sequence "+ph.Comment+" is still the nil slice it was declared as (one arm of the selection that sets it assigns nothing): the read is out of range there")
+						guarded = true
+					}
+				}
 			}
 			c.check(guarded, fnName(fn), "an element at the position of a loop counter is read behind a test of the counter", p.InstrPos(in),
 				"the counter is tested in the loop",
@@ -3642,4 +3668,163 @@ func ruleNatsSmall(c *Ctx) {
 				"system.subjectTooLong is answered on a path that has not measured the subject: every subscribe / request is refused")
 		}
 	}
+}
+
+// ---------------------------------------------------------------------------
+// TABLE/list-scan (C05): shape conditions of the scanner that looks a method up
+// in the comma-separated call list (Access.CanCall). Decided: (a) the scan
+// loop is left without a grant only behind "the counter has passed the start of
+// the list" — so every entry is looked at, not only the last; (b) the text
+// compared with the method is cut out between the counter (plus one) and an end
+// mark that moves to each separator found (a merge of the list length and the
+// counter) — so an entry is compared on its own, not together with everything
+// behind it. Not decided: that the scanner is right for all lists.
+func ruleListScan(c *Ctx) {
+	p := c.P
+	fn := p.Fn("(*rescache.Access).CanCall")
+	fCall := p.Field("rescache.Access.Call")
+	if fn == nil || fCall == nil {
+		c.undecided("(*rescache.Access).CanCall", "anchor", "-", "not found")
+		return
+	}
+	// the compared slices of the list
+	n := 0
+	for _, g := range p.withNewHelpers(fn) {
+		for _, in := range instrsOf(g) {
+			sl, ok := in.(*ssa.Slice)
+			if !ok {
+				continue
+			}
+			if f, _ := fieldLoad(stripConv(sl.X)); f != fCall {
+				continue
+			}
+			h := innermostLoopHeader(sl.Block())
+			if h == nil {
+				continue
+			}
+			n++
+			body := loopBody(h)
+			// (b) bounds
+			c.inst(1)
+			bad := ""
+			lo := inductionVar(sl.Low)
+			if lo == nil {
+				bad = "the start of the compared text is not the scan position"
+			}
+			hiOK := false
+			if ph, ok := stripConv(sl.High).(*ssa.Phi); ok && lo != nil {
+				for _, e := range ph.Edges {
+					if mentionsValue(e, lo, 0) {
+						hiOK = true
+					}
+				}
+			}
+			if sl.High == nil {
+				hiOK = false
+			}
+			if bad == "" && !hiOK {
+				bad = "the end of the compared text does not move to the separator found: an entry is compared together with everything behind it, so only the last entry of a list can ever match"
+			}
+			c.check(bad == "", fnName(g), "a list entry is compared on its own (from the scan position to the last separator found)", p.InstrPos(sl), "low = counter+1, high merges the list length and the counter", bad)
+			// (a) exits
+			if lo == nil {
+				continue
+			}
+			c.inst(1)
+			bad = ""
+			atStart := func(i *ssa.If) (bool, bool) {
+				x, op, k, ok := cmpConst(i.Cond)
+				if !ok || !mentionsValue(x, lo, 0) {
+					return false, false
+				}
+				switch {
+				case op == token.EQL && k == -1, op == token.LSS && k == 0, op == token.LEQ && k == -1:
+					return true, true
+				case op == token.NEQ && k == -1, op == token.GEQ && k == 0, op == token.GTR && k == -1:
+					return false, true
+				}
+				return false, false
+			}
+			live := liveBlocks(g)
+			for b := range body {
+				if live != nil && !live[b] {
+					continue
+				}
+				for si, s := range b.Succs {
+					if body[s] {
+						continue
+					}
+					// a constant test takes only its live edge
+					if i := blockIf(b); i != nil {
+						if v, isC := constBool(i.Cond); isC && (v != (si == 0)) {
+							continue
+						}
+					}
+					// an exit that grants (returns nil) needs no bound
+					if len(s.Instrs) > 0 {
+						if r, ok := s.Instrs[len(s.Instrs)-1].(*ssa.Return); ok && len(r.Results) == 1 && isNilConst(r.Results[0]) {
+							continue
+						}
+					}
+					guarded := false
+					if i := blockIf(b); i != nil {
+						if d, ok := atStart(i); ok && d == (si == 0) {
+							guarded = true
+						}
+					}
+					if !guarded && len(b.Instrs) > 0 && p.guardedByOpt(b.Instrs[len(b.Instrs)-1], atStart, false) != nil {
+						guarded = true
+					}
+					if !guarded {
+						bad = "the scan can be left without a grant before the start of the list is reached (" + p.InstrPos(b.Instrs[len(b.Instrs)-1]) + "): entries in front are never compared, a granted method is denied"
+					}
+				}
+			}
+			c.check(bad == "", fnName(g), "the scan of the call list is given up only at the start of the list", p.InstrPos(sl), "every exit without grant lies behind counter == -1", bad)
+		}
+	}
+	if n == 0 {
+		c.note("CanCall does not scan the list with a counter (rewritten): nothing to decide")
+	}
+}
+
+// madeHere: the slice value comes from a make in the same function (directly,
+// through a local, a re-slice or a merge of such).
+func madeHere(v ssa.Value, depth int) bool {
+	if depth > 6 {
+		return false
+	}
+	switch x := stripConv(v).(type) {
+	case *ssa.MakeSlice:
+		return true
+	case *ssa.Slice:
+		return madeHere(x.X, depth+1)
+	case *ssa.Phi:
+		for _, e := range x.Edges {
+			if !madeHere(e, depth+1) {
+				return false
+			}
+		}
+		return len(x.Edges) > 0
+	case *ssa.UnOp:
+		if x.Op == token.MUL {
+			if al, ok := x.X.(*ssa.Alloc); ok && al.Referrers() != nil {
+				n := 0
+				for _, r := range *al.Referrers() {
+					if st, ok := r.(*ssa.Store); ok && st.Addr == ssa.Value(al) {
+						n++
+						if !madeHere(st.Val, depth+1) {
+							return false
+						}
+					}
+				}
+				return n > 0
+			}
+		}
+	case *ssa.Call:
+		if isBuiltinNamed(x, "append") && len(x.Call.Args) > 0 {
+			return madeHere(x.Call.Args[0], depth+1)
+		}
+	}
+	return false
 }
